@@ -475,4 +475,4 @@ def check(ctx):
     r11_lookup_key_ignores_lifetime_spelling(ctx)
 
 
-CLAUSE += '; the positions recorded for path parameters and the lengths they are compared with count in the same unit'
+CLAUSE += ' Also: the positions recorded for path parameters and the lengths they are compared with count in the same unit.'
